@@ -118,6 +118,7 @@ func resetGlobals() {
 	vos.SetObserver(nil)
 	vos.ResetSteps()
 	vos.SetPageTear(false, nil)
+	vos.ClearFaults()
 	vnet.SetDialer(nil)
 	vrand.SetInt(nil)
 	vrand.SetRead(nil)
